@@ -2,6 +2,8 @@
 
 from __future__ import annotations
 
+import struct
+
 import itertools
 
 from vmc.kernel import deviation_sets, sequences
@@ -24,6 +26,7 @@ ASSUMPTIONS = [
 BOUNDS = {"quick": {"lens": list(range(0, 97)) + [1000], "k": 2, "fault_sizes": (0, 17, 40)}, "thorough": {"lens": list(range(0, 161)) + [1000, 4096], "k": 2, "fault_sizes": (0, 1, 15, 16, 17, 31, 32, 33, 40, 63, 64)}}
 
 DEFAULT_IV = b"abcdefghijklmnop"
+LARGE = {"quick": (4079, 4080, 4095, 4096, 4097, 8191, 8192, 8193, 12345), "thorough": (4079, 4080, 4095, 4096, 4097, 8191, 8192, 8193, 12345, 16384, 32768, 65536, 70001)}
 
 
 def key_family(seed):
@@ -36,6 +39,10 @@ def plan(tier, seed):
     ch = []
     for name, _ in key_family(seed):
         ch.append({"key": f"roundtrip/{name}", "kind": "roundtrip", "keyname": name, "cost": 120})
+    # plaintexts of several KiB (buffer / slice boundaries inside the cipher code), one packet length per chunk
+    for ln in LARGE[tier]:
+        ch.append({"key": f"roundtrip/large/{ln}", "kind": "roundtrip", "keyname": "lcg", "lens": [ln], "cost": 200 + ln // 10})
+    ch.append({"key": "decoder/multi-packet-faults", "kind": "decoder_faults", "cost": 800})
     for size in BOUNDS[tier]["fault_sizes"]:
         ch.append({"key": f"faults/ct/{size}", "kind": "faults", "size": size, "target": "ct", "cost": 400 + size * 10})
         ch.append({"key": f"faults/sig/{size}", "kind": "faults", "size": size, "target": "sig", "cost": 300})
@@ -62,7 +69,7 @@ def chunk_roundtrip(chunk, acc):
     key = fam[chunk["keyname"]]
     hkeys = [bytes(lcg(16, acc.seed + 7)), key, b"\x00" * 16]
     ivs = [DEFAULT_IV, key, b"\x00" * 16]
-    for ln in BOUNDS[acc.tier]["lens"]:
+    for ln in chunk.get("lens") or BOUNDS[acc.tier]["lens"]:
         pt = bytes(lcg(ln, acc.seed + ln))
         acc.states += 1
         for hk in hkeys[: 3 if ln < 20 else 1]:
@@ -231,6 +238,77 @@ def chunk_faults2(chunk, acc):
     acc.sample({"packet_plain_len": chunk["size"], "pairs": "ciphertext bit x (signature bit | hmac key bit | truncation)"})
 
 
+def chunk_decoder_faults(chunk, acc):
+    """The traffic decoder on a callback request that carries 1..3 packets, one of which was changed: the message is
+    rejected with ValueError; packets in front of the changed one may have been reported, nothing of or after it."""
+    from dissect.cobaltstrike import beacon
+    from vmc.ref import config as RC
+
+    r = bytes(lcg(16, acc.seed + 61))
+    ak, hk = R.derive_keys(r)
+    bconfig = beacon.BeaconConfig(RC.http_block())
+    plains = [struct.pack(">III", 7 + i, len(d), 0) + d for i, d in enumerate((b"first", b"second packet, longer than one block", b""))]
+    pk = [R.encrypt_packet(p, ak, hk) for p in plains]
+
+    def message(packets):
+        stream = b"".join((len(ct) + 16).to_bytes(4, "big") + ct + sg for ct, sg in packets)
+        return c2.HttpRequest(method=b"POST", uri=b"/submit.php", params={b"id": b"1234"}, headers={}, body=stream)
+
+    from dissect.cobaltstrike import c2
+
+    for n in (1, 2, 3):
+        acc.states += 1
+        dec = c2.C2Http(bconfig, aes_rand=r)
+        base = call(lambda: [(p.counter, bytes(p.data)) for p in dec.iter_recover_http(message(pk[:n]))])
+        acc.transitions += 1
+        acc.case(("intact", n), outcome=str(base)[:60])
+        want = [(7 + i, (b"first", b"second packet, longer than one block", b"")[i]) for i in range(n)]
+        if base != want:
+            acc.fail("C05/decoder/intact-message", {"kind": "decoder_faults", "seed": acc.seed}, str(want), str(base)[:300])
+            continue
+        for victim in range(n):
+            ct, sg = pk[victim]
+            faults = [("ct-bit", i, bytes(ct[:i // 8]) + bytes([ct[i // 8] ^ (1 << (i % 8))]) + ct[i // 8 + 1:], sg) for i in range(0, 8 * len(ct), 7)]
+            faults += [("sig-bit", i, ct, sg[: i // 8] + bytes([sg[i // 8] ^ (1 << (i % 8))]) + sg[i // 8 + 1:]) for i in range(0, 128, 5)]
+            for what, arg, fct, fsg in faults:
+                pkts = list(pk[:n])
+                pkts[victim] = (fct, fsg)
+                got = []
+                acc.transitions += 1
+                dec = c2.C2Http(bconfig, aes_rand=r)
+                try:
+                    for p in dec.iter_recover_http(message(pkts)):
+                        got.append((p.counter, bytes(p.data)))
+                    res = "no exception"
+                except ValueError:
+                    res = "ValueError"
+                except Exception as e:  # noqa
+                    res = f"EXC {type(e).__name__}: {e}"
+                acc.case(("fault", n, victim, what, arg), nontrivial=True, outcome=(res, len(got)))
+                if res != "ValueError" or got != want[:victim]:
+                    sig = "C05/decoder/changed-packet-" + ("not-rejected" if res == "no exception" else "wrong-exception" if res != "ValueError" else "yielded")
+                    acc.fail(sig, {"kind": "decoder_faults", "seed": acc.seed, "packets": n, "victim": victim, "what": what, "arg": arg}, {"result": "ValueError", "reported": want[:victim]}, {"result": res, "reported": str(got)[:200]})
+            # the tail of the message cut off inside the victim packet
+            stream = b"".join((len(c) + 16).to_bytes(4, "big") + c + g for c, g in pk[:n])
+            start = sum(4 + len(c) + 16 for c, g in pk[:victim])
+            for cut in range(start + 5, start + 4 + len(ct) + 16):
+                acc.transitions += 1
+                dec = c2.C2Http(bconfig, aes_rand=r)
+                got = []
+                try:
+                    for p in dec.iter_recover_http(c2.HttpRequest(method=b"POST", uri=b"/submit.php", params={b"id": b"1234"}, headers={}, body=stream[:cut])):
+                        got.append((p.counter, bytes(p.data)))
+                    res = "no exception"
+                except ValueError:
+                    res = "ValueError"
+                except Exception as e:  # noqa
+                    res = f"EXC {type(e).__name__}: {e}"
+                acc.case(("cut", n, victim, cut), nontrivial=True, outcome=(res, len(got)))
+                if res != "ValueError" or got != want[:victim]:
+                    acc.fail("C05/decoder/truncated-packet-" + ("not-rejected" if res == "no exception" else "wrong-exception" if res != "ValueError" else "yielded"), {"kind": "decoder_faults", "seed": acc.seed, "packets": n, "victim": victim, "what": "cut", "arg": cut}, {"result": "ValueError", "reported": want[:victim]}, {"result": res, "reported": str(got)[:200]})
+    acc.sample({"message": "POST /submit.php?id=1234 with 1..3 length-prefixed packets", "faults": "bit flips in ciphertext / signature of each packet, every cut inside each packet"})
+
+
 def chunk_framing_client(chunk, acc):
     from dissect.cobaltstrike import c2
 
@@ -326,6 +404,8 @@ def replay(case):
         dec = call(c2.decrypt_packet, pkt, key, hk, iv) if ok else None
         ok = ok and isinstance(dec, bytes) and dec == pt + b"A" * (16 - len(pt) % 16)
         return {"ok": ok, "expected": {"ct": ect.hex()[:96], "sig": esig.hex()}, "observed": pkt if isinstance(pkt, str) else {"ct": bytes(pkt.ciphertext).hex()[:96], "sig": bytes(pkt.signature).hex(), "dec": dec.hex()[:96] if isinstance(dec, bytes) else dec}}
+    elif k == "decoder_faults":
+        chunk_decoder_faults({}, a)
     elif k == "framing":
         chunk_framing_client({}, a)
     elif k == "framing_server":
